@@ -71,3 +71,21 @@ def closed(S: SV) -> SV:
     h = HashInfo.fresh("h!cl")
     body = z3.Implies(z3.And(S.contains(h).t, isdir_hi(h).t), tree_hids(h).subset(S).t)
     return SV(z3.ForAll([h.t], body), TBool)
+
+
+def O(path: SV, oid: SV) -> SV:
+    """path of an object as an abstract function, injective in the id; its definition is the layout o2p (O_def) and its
+    injectivity for ids of length >= 2 is a lemma over that definition (C01)"""
+    f = ufn("O_path", z3.StringSort(), z3.StringSort(), z3.StringSort())
+    return SV(f(path.t, oid.t), TStr)
+
+
+def O_def() -> SV:
+    p, a = SV(z3.String("p!Od"), TStr), SV(z3.String("a!Od"), TStr)
+    return SV(z3.ForAll([p.t, a.t], O(p, a).t == o2p(p, a).t, patterns=[O(p, a).t]), TBool)
+
+
+def O_injective() -> SV:
+    p, a, b = z3.String("p!O"), z3.String("a!O"), z3.String("b!O")
+    f = ufn("O_path", z3.StringSort(), z3.StringSort(), z3.StringSort())
+    return SV(z3.ForAll([p, a, b], z3.Implies(f(p, a) == f(p, b), a == b), patterns=[z3.MultiPattern(f(p, a), f(p, b))]), TBool)
